@@ -62,6 +62,13 @@ def _list_items(cp):
   orphan_sections = cp.orphan_sections
   raw_items = _parse_raw(cp, orphan_sections)
   items.extend(raw_items)
+
+  # [Table-Form:NAME] sections and [Variables] are neither parsed nor orphan sections
+  raw_cp = cp.raw_config_parser
+  table_sections = [s for s in raw_cp.sections() if not s in orphan_sections and not s in ConfigParser._section_map]
+  items.extend(_parse_raw(cp, table_sections))
+  if raw_cp.defaults():
+    items.extend(_list_section(cp, raw_cp.default_section))
   return items
 
 def _list_item_labels(cp):
